@@ -79,7 +79,8 @@ def cfgOfJson (ver : String) (j : Json) : Except String Cfg := do
       else match k with
         | .input => !nsIn.contains id
         | .output => !nsOut.contains id,
-    flagReset := getBoolD j "flag_reset" Generated.C01.v2FlagResetOnFailure }
+    flagReset := getBoolD j "flag_reset" Generated.C01.v2FlagResetOnFailure,
+    singleCall := getBoolD j "single_call" false }
 
 def turnOfJson (j : Json) : Except String Turn := do
   let user ← (← j.getObjVal? "user").getStr?
@@ -104,6 +105,7 @@ def taskStr : Task → String
   | .userIntent => "generate_user_intent"
   | .nextSteps => "generate_next_steps"
   | .botMessage => "generate_bot_message"
+  | .single => "generate_intent_steps_message"
   | .value => "generate_value_from_instruction"
   | .intentV2 => "generate_user_intent_from_user_action"
   | .continuation => "generate_flow_continuation"
